@@ -1,2 +1,200 @@
-import Moclo.Model.Entity
-/-! placeholder for C08 (theorems follow) -/
+import Moclo.Proofs.Feature
+import Moclo.Proofs.Layout
+/-!
+# C08 — annotations are inherited faithfully by the assembled plasmid
+
+Model: `Rec.rotl` / `Feature.rotr` (`record << start`), `Rec.slice` (Biopython's raw-coordinate test
+`start ≤ f.start ∧ f.end ≤ stop` and shift), `Rec.append` (shift by the length of what precedes),
+`addSource`.  A *well-formed* part (`Part.WF n`): `-n < s < n`, `s < e ≤ s + n`, `0 < e` — what GenBank
+locations are and what `>>`, `<<`, `reverse_complement` keep producing (theorems `wf_rotr`, `wf_flip`).
+
+The theorems show that Biopython's test on raw, unnormalised coordinates coincides with containment of the
+denoted nucleotides (positions modulo `n`) in the retained fragment once the record is rotated to the cut, and
+that the kept feature denotes exactly the shifted nucleotides.
+-/
+namespace Moclo.C08
+open Moclo
+
+/-- well-formed part of a record of length `n` -/
+def Part.WF (n : Nat) (p : Part) : Prop := -(n : Int) < p.s ∧ p.s < n ∧ p.s < p.e ∧ p.e ≤ p.s + n ∧ 0 < p.e
+
+/-- rotation keeps parts well formed -/
+theorem wf_rotr (n k : Nat) (p : Part) (hk : k < n) (h : Part.WF n p) : Part.WF n ((p.shift k).renorm n) := by
+  obtain ⟨s, e, st⟩ := p
+  simp only [Part.WF] at h
+  obtain ⟨h1, h2, h3, h4, h5⟩ := h
+  unfold Part.renorm
+  split
+  · rename_i hc
+    simp only [Part.shift] at hc
+    obtain ⟨hc1, hc2⟩ := hc
+    have hn : (0 : Int) < n := by omega
+    have hr : (s + (k : Int)) / (n : Int) = 1 := by
+      have a := Int.le_ediv_of_mul_le hn (show (1 : Int) * n ≤ s + k by omega)
+      have b := Int.ediv_lt_of_lt_mul hn (show s + (k : Int) < 2 * n by omega)
+      omega
+    simp only [Part.shift, hr, Part.WF]
+    refine ⟨by omega, by omega, by omega, by omega, by omega⟩
+  · rename_i hc
+    simp only [Part.shift, not_and_or, not_le] at hc
+    simp only [Part.shift, Part.WF]
+    refine ⟨by omega, by omega, by omega, by omega, by omega⟩
+
+/-- … and so does reverse complement -/
+theorem wf_flip (n : Nat) (p : Part) (h : Part.WF n p) : Part.WF n (p.flip n) := by
+  obtain ⟨s, e, st⟩ := p
+  simp only [Part.WF] at h
+  obtain ⟨h1, h2, h3, h4, h5⟩ := h
+  simp only [Part.flip, Part.WF]
+  exact ⟨by omega, by omega, by omega, by omega, by omega⟩
+
+/-- GenBank locations are well formed -/
+theorem wf_genbank (n : Nat) (s e : Nat) (st : Int) (h1 : s < e) (h2 : e ≤ n) : Part.WF n ⟨s, e, st⟩ := by
+  simp only [Part.WF]
+  refine ⟨by omega, by omega, by omega, by omega, by omega⟩
+
+theorem emod_small (t : Int) (n : Nat) (h0 : 0 ≤ t) (h1 : t < n) : t.emod n = t := Int.emod_eq_of_lt h0 h1
+
+/-- **the raw-coordinate test is containment of the denoted nucleotides**: for a well-formed part of a record
+of length `n` and a fragment `[0, L)` strictly shorter than the record, Biopython's `0 ≤ start ∧ end ≤ L`
+holds exactly when every nucleotide the part denotes lies in the fragment -/
+theorem part_inside_iff (n L : Nat) (p : Part) (hL : L < n) (h : Part.WF n p) :
+    (0 ≤ p.s ∧ p.e ≤ L) ↔ ∀ x, x < n → p.covers n x → x < L := by
+  obtain ⟨h1, h2, h3, h4, h5⟩ := h
+  constructor
+  · rintro ⟨a, b⟩ x hx ⟨t, t1, t2, t3⟩
+    rw [emod_small t n (by omega) (by omega)] at t3; omega
+  · intro hall
+    have hs : 0 ≤ p.s := by
+      by_contra hc
+      have hm : (-1 : Int).emod (n : Int) = ((n - 1 : Nat) : Int) := by
+        show (-1 : Int) % (n : Int) = _
+        rw [← Int.add_emod_right, Int.emod_eq_of_lt (by omega) (by omega)]; omega
+      have := hall (n - 1) (by omega) ⟨-1, by omega, by omega, hm⟩
+      omega
+    refine ⟨hs, ?_⟩
+    by_contra hc
+    by_cases hsl : p.s ≤ L
+    · have := hall L (by omega) ⟨L, hsl, by omega, emod_small _ _ (by omega) (by omega)⟩
+      omega
+    · have hsn : p.s.toNat < n := by omega
+      have := hall p.s.toNat hsn ⟨p.s, Int.le_refl _, h3, by
+        rw [emod_small _ _ hs (by omega)]; omega⟩
+      omega
+
+theorem minI_ge {l : List Int} (hne : l ≠ []) (c : Int) : c ≤ minI l ↔ ∀ x ∈ l, c ≤ x := by
+  induction l with
+  | nil => exact absurd rfl hne
+  | cons a as ih =>
+    cases as with
+    | nil => simp [minI]
+    | cons b bs =>
+      simp only [minI]
+      rw [Int.le_min, ih (by simp)]
+      simp
+
+theorem maxI_le {l : List Int} (hne : l ≠ []) (c : Int) : maxI l ≤ c ↔ ∀ x ∈ l, x ≤ c := by
+  induction l with
+  | nil => exact absurd rfl hne
+  | cons a as ih =>
+    cases as with
+    | nil => simp [maxI]
+    | cons b bs =>
+      simp only [maxI]
+      rw [Int.max_le, ih (by simp)]
+      simp
+
+/-- a feature is kept by the slice `[0, L)` iff each of its parts lies inside — never truncated -/
+theorem feature_kept_iff (f : Feature) (L : Nat) (hne : f.parts ≠ []) :
+    ((0 : Int) ≤ f.lo ∧ f.hi ≤ (L : Int)) ↔ ∀ p ∈ f.parts, 0 ≤ p.s ∧ p.e ≤ L := by
+  unfold Feature.lo Feature.hi
+  rw [minI_ge (by simpa using hne), maxI_le (by simpa using hne)]
+  simp only [List.mem_map, forall_exists_index, and_imp, forall_apply_eq_imp_iff₂]
+  constructor
+  · rintro ⟨a, b⟩ p hp; exact ⟨a p hp, b p hp⟩
+  · intro h; exact ⟨fun p hp => (h p hp).1, fun p hp => (h p hp).2⟩
+
+/-- **faithful transport of one part**: let the record (length `n`) be rotated so that the retained
+fragment is `[0, L)`, `L < n` (`k` = the right-rotation amount), then sliced and placed at offset `o` of a
+product of length `N ≥ o + L`.  For a well-formed part:
+* it is kept iff every nucleotide it denoted, seen after the rotation, lies in the fragment;
+* when kept, the product part `[s + k + o, e + k + o)` (after renormalisation) denotes exactly the images
+  `o + ((x + k) mod n)` of the nucleotides `x` it denoted, on the same strand. -/
+theorem part_transport (n k L o N : Nat) (p : Part) (hk : k < n) (hL : L < n) (hN : o + L ≤ N) (h : Part.WF n p) :
+    let q := (p.shift k).renorm n
+    ((0 ≤ q.s ∧ q.e ≤ L) ↔ ∀ x, x < n → p.covers n x → (x + k) % n < L) ∧
+    ((0 ≤ q.s ∧ q.e ≤ L) → (q.shift o).strand = p.strand ∧
+      ∀ y, y < N → ((q.shift o).covers N y ↔ ∃ x, x < n ∧ p.covers n x ∧ y = o + (x + k) % n)) := by
+  intro q
+  have hn : 0 < n := by omega
+  have hq := wf_rotr n k p hk h
+  have hrot : ∀ x, x < n → (q.covers n ((x + k) % n) ↔ p.covers n x) := fun x hx => covers_rotr_part n k p x hx
+  constructor
+  · rw [part_inside_iff n L q hL hq]
+    constructor
+    · intro hall x hx hc
+      exact hall _ (Nat.mod_lt _ hn) ((hrot x hx).mpr hc)
+    · intro hall y hy hc
+      -- y is the image of some x
+      obtain ⟨x, hx, rfl⟩ : ∃ x, x < n ∧ y = (x + k) % n := by
+        refine ⟨(y + (n - k)) % n, Nat.mod_lt _ hn, ?_⟩
+        rw [Nat.add_mod, Nat.mod_mod, ← Nat.add_mod]
+        have : y + (n - k) + k = y + n := by omega
+        rw [this, Nat.add_mod_right, Nat.mod_eq_of_lt hy]
+      exact hall x hx ((hrot x hx).mp hc)
+  · rintro ⟨a, b⟩
+    refine ⟨?_, ?_⟩
+    · show ((p.shift k).renorm n).strand = p.strand
+      unfold Part.renorm Part.shift; split <;> rfl
+    · intro y hy
+      obtain ⟨_, _, q3, _, _⟩ := hq
+      constructor
+      · rintro ⟨t, t1, t2, t3⟩
+        simp only [Part.shift] at t1 t2
+        rw [emod_small t N (by omega) (by omega)] at t3
+        -- t - o is a raw coordinate inside [q.s, q.e) ⊆ [0, L)
+        have hy' : (t - o).toNat < n := by omega
+        obtain ⟨x, hx, hxe⟩ : ∃ x, x < n ∧ (t - o).toNat = (x + k) % n := by
+          refine ⟨((t - o).toNat + (n - k)) % n, Nat.mod_lt _ hn, ?_⟩
+          rw [Nat.add_mod, Nat.mod_mod, ← Nat.add_mod]
+          have : (t - o).toNat + (n - k) + k = (t - o).toNat + n := by omega
+          rw [this, Nat.add_mod_right, Nat.mod_eq_of_lt hy']
+        refine ⟨x, hx, ?_, by omega⟩
+        rw [← hrot x hx, ← hxe]
+        exact ⟨t - o, by omega, by omega, by rw [emod_small _ _ (by omega) (by omega)]; omega⟩
+      · rintro ⟨x, hx, hc, rfl⟩
+        obtain ⟨t, t1, t2, t3⟩ := (hrot x hx).mpr hc
+        rw [emod_small t n (by omega) (by omega)] at t3
+        refine ⟨t + o, by simp only [Part.shift]; omega, by simp only [Part.shift]; omega, ?_⟩
+        rw [emod_small _ _ (by omega) (by omega)]; omega
+
+/-- features overlapping a discarded region are dropped, never truncated or shifted: the slice either keeps a
+feature with all its parts (shifted as a whole) or not at all -/
+theorem slice_all_or_nothing (r : Rec) (a b : Nat) :
+    ∀ f' ∈ (r.slice a b).feats, ∃ f ∈ r.feats, f' = f.shift (-(a : Int)) ∧ (a : Int) ≤ f.lo ∧ f.hi ≤ (b : Int) := by
+  intro f' hf'
+  simp only [Rec.slice, List.mem_map, List.mem_filter, decide_eq_true_eq] at hf'
+  obtain ⟨f, ⟨hf, hc⟩, rfl⟩ := hf'
+  exact ⟨f, hf, rfl, hc⟩
+
+/-- type, qualifiers and citations are carried untouched by every step of the pipeline -/
+theorem attributes_carried (n k : Nat) (d : Int) (f : Feature) :
+    ((f.rotr n k).shift d).ftype = f.ftype ∧ ((f.rotr n k).shift d).qual = f.qual ∧
+    ((f.rotr n k).shift d).cites = f.cites := by
+  unfold Feature.rotr; split <;> exact ⟨rfl, rfl, rfl⟩
+
+/-- every feature of the concatenated product comes from exactly one fragment record, shifted by the total
+length of the fragments before it (conversely every feature of every fragment record is there): nothing is
+invented, nothing is lost at this step -/
+theorem product_features (ts : List Rec) :
+    (ts.foldl Rec.append ⟨0, [], [], []⟩).feats =
+      ((ts.zip (offsets 0 ts)).map (fun p => p.1.feats.map (Feature.shift p.2))).flatten := by
+  simpa using foldl_append_feats ts ⟨0, [], [], []⟩
+
+/-! non-vacuity: a 10-mer whose fragment is `[0,4)` after rotating right by 3; the origin-spanning part
+`[8, 11)` (positions 8, 9, 0) becomes `[1, 4)` and is kept; `[6, 9)` becomes `[9, 12)` and is dropped -/
+example : (((⟨8, 11, 1⟩ : Part).shift 3).renorm 10, ((⟨6, 9, -1⟩ : Part).shift 3).renorm 10) = (⟨1, 4, 1⟩, ⟨9, 12, -1⟩) := by
+  decide
+example : Part.WF 10 ⟨8, 11, 1⟩ := by unfold Part.WF; decide
+
+end Moclo.C08
